@@ -309,6 +309,12 @@ func (f *g2lFn) leanType(t types.Type, at ast.Node) string {
 	if at2, ok := t.(*types.Array); ok && intKindOf(at2.Elem()) == kU8 {
 		return "Bytes"
 	}
+	if n0, ok := t.(*types.Named); ok {
+		if sig0, ok := n0.Underlying().(*types.Signature); ok && n0.Obj().Pkg() == f.p.pkg {
+			// a named function type (type Hash func(…) (…)): its signature
+			return f.leanType(sig0, at)
+		}
+	}
 	if sig, ok := t.(*types.Signature); ok {
 		// a function-typed parameter (open func(string) (io.ReadCloser, error))
 		ps := []string{}
